@@ -86,7 +86,8 @@ func checkC15(r *harness.Run) harness.Coverage {
 		docs = append(append([]interface{}{}, docs[:40]...), docs[len(docs)-4:]...)
 	}
 	// operands that are equal / ordered either way as numbers, equal as strings and arrays
-	docs = append(docs, univ.Js(`{"a":1,"b":1}`, `{"a":1,"b":2}`, `{"a":2,"b":1}`, `{"a":"x","b":"x"}`, `{"a":[1],"b":[1]}`, `{"a":2,"b":{"a":2}}`)...)
+	docs = append(docs, univ.Js(`{"a":1,"b":1}`, `{"a":1,"b":2}`, `{"a":2,"b":1}`, `{"a":"x","b":"x"}`, `{"a":[1],"b":[1]}`, `{"a":2,"b":{"a":2}}`,
+		`{"a":{"x":1},"b":{"y":2}}`, `{"a":[3,1,2],"b":[2,1]}`, `{"a":[{"k":2},{"k":1}],"b":["b","a"]}`)...)
 	g := univ.NewGen(univ.MixedFragment())
 	A := buildExprs(g, wA, nil)
 	var pairs, nontriv, gaps, steps int64
@@ -148,6 +149,52 @@ func checkC15(r *harness.Run) harness.Coverage {
 			}
 		}
 	})
+	// ---- (1b) pipe law for call | selector idioms (the shapes a parser or interpreter is tempted to rewrite into
+	// one fused operation: "sort_by(..) | [-1]" is NOT max_by when keys tie), on documents with tied keys
+	{
+		idiomDocs := univ.Js(`{"a":[{"k":2,"t":0},{"k":1,"t":1},{"k":2,"t":2},{"k":1,"t":3}],"b":[3,1,3,1]}`, `{"a":[{"k":"x","t":0},{"k":"x","t":1}],"b":["b","a","b"]}`, `{"a":[],"b":[]}`, `{"a":[{"k":1,"t":0}],"b":[1]}`, `{"a":null,"b":{"k":1}}`)
+		lefts := []string{"sort_by(a, &k)", "sort_by(a, &t)", "sort(b)", "reverse(b)", "reverse(a)", "max_by(a, &k)", "min_by(a, &k)", "map(&k, a)", "a[*].k", "a[?k == `2`]", "a[?k]", "b[?@ > `1`]", "to_array(b)", "keys(b)", "values(b)",
+			"not_null(a, b)", "a[::-1]", "b[1:]", "[a, b]", "merge(b, b)", "a[].t", "sort_by(a, &k)[*].t", "reverse(sort_by(a, &k))"}
+		rights := []string{"[0]", "[-1]", "[1]", "[-2]", "[*]", "[]", "[?@]", "[::-1]", "[:1]", "[-1:]", "length(@)", "[0].t", "[-1].t", "[*].t", "max_by(@, &t)", "reverse(@)", "[0] || `9`", "@", "[?t > `0`] | [0]", "sort(@)", "max(@)", "min(@)"}
+		for _, a := range lefts {
+			jpA, cerrA, pnA := impl.Compile(a)
+			if cerrA != nil || pnA != nil {
+				continue
+			}
+			for _, b := range rights {
+				text := a + " | " + b
+				jpAB, cerr, pn := impl.Compile(text)
+				jpB, cerrB, pnB := impl.Compile(b)
+				if pn != nil || cerr != nil || pnB != nil || cerrB != nil {
+					continue
+				}
+				for _, d := range idiomDocs {
+					atomic.AddInt64(&pairs, 1)
+					atomic.AddInt64(&nontriv, 1)
+					lhs, lerr, lpn := impl.Search(jpAB, model.Copy(d))
+					mid, merr, mpn := impl.Search(jpA, model.Copy(d))
+					if lpn != nil || mpn != nil {
+						continue
+					}
+					var rhs interface{}
+					rerr := merr
+					if merr == nil {
+						var rpn *impl.Panic
+						rhs, rerr, rpn = impl.Search(jpB, mid)
+						if rpn != nil {
+							continue
+						}
+					}
+					if !implSame(lhs, lerr, rhs, rerr) {
+						r.Report(harness.Violation{Kind: "wrong-value", Signature: "pipe-law:" + text,
+							Input: map[string]interface{}{"expression": text, "A": a, "B": b, "document": d}, Expected: "equal results, error iff a step errors",
+							Observed: "Search(A|B) = " + showRes(lhs, lerr) + " but Search(B, Search(A)) = " + showRes(rhs, rerr) + " with Search(A) = " + showRes(mid, merr)})
+						break
+					}
+				}
+			}
+		}
+	}
 	// ---- (2) referential transparency
 	gc := univ.NewGen(univ.MixedFragment("HOLE"))
 	ctxs := buildExprs(gc, wC, func(toks []model.Tok, ast *model.Node) bool {
@@ -163,6 +210,11 @@ func checkC15(r *harness.Run) harness.Coverage {
 		for _, x := range []string{"a", "b", "`1`", "`2`", "'x'", "b.a"} {
 			ctxs = append(ctxs, exprFromText("HOLE "+op+" "+x), exprFromText(x+" "+op+" HOLE"), exprFromText("[HOLE "+op+" "+x+", "+x+" "+op+" HOLE]"))
 		}
+	}
+	// a call on the hole next to a second mention of the same data: if the call works in place on what the hole
+	// evaluated to, the literal twin (whose hole is a private literal) gives a different answer
+	for _, f := range []string{"merge(HOLE, b)", "merge(HOLE, a)", "sort(HOLE)", "reverse(HOLE)", "sort_by(HOLE, &k)", "sort_by(HOLE, &@)", "to_array(HOLE)", "not_null(HOLE)", "map(&@, HOLE)", "HOLE[::-1]", "HOLE[]", "max_by(HOLE, &@)", "values(HOLE)"} {
+		ctxs = append(ctxs, exprFromText("["+f+", a]"), exprFromText("["+f+", b]"), exprFromText("[a, "+f+", a]"), exprFromText("{x: "+f+", y: a, z: b}"), exprFromText("["+f+", a] | [1]"))
 	}
 	E := buildExprs(g, wE, nil)
 	var rtCases int64
